@@ -150,6 +150,12 @@ PSR_ADDR = fun("psr_address", S, S)
 CNT_PSR = fun("cnt_recipients", S, S, I, I)   # number of pieces of re.split(P, s)[:i] that give a recipient with a name or an address
 
 
+# (round 7) the specified result of msg._parse_multi_recipients(s) for a str s, as an abstract sequence (call-site view of its verified
+# contract: the recursive calls of the list form), and the prefix sums of the result lengths over the items of a list argument
+PMR_N = fun("pmr_n", S, I)
+PMR_AT = z3.Function("pmr_at", S, I, ext_sort("EmailAddress"))
+
+
 def psr_keep(P, s, k):
     part = RSPL_AT(P, s, k)
     return z3.And(z3.Not(PSR_NONE(part)), z3.Or(z3.Length(PSR_NAME(part)) > 0, z3.Length(PSR_ADDR(part)) > 0))
@@ -849,6 +855,15 @@ class MailExecutor(UnitsExecutor):
             vk = X.ekind_of_value(self.freeze(st.fork(), args[0]) if isinstance(args[0], VRef) else args[0])
             old = self._probe_kinds.get(obj.ref)
             self._probe_kinds[obj.ref] = vk if old in (None, vk) else "unk"
+        if name == "extend" and self._probing and args:
+            # (round 7) `xs.extend(<symbolic sequence>)`: the element kind of the sequence is the kind of what the loop adds
+            src = args[0]
+            if isinstance(src, VRef) and st.obj(src.ref).kind == "alist":
+                src = st.obj(src.ref).data
+            if isinstance(src, VSeq):
+                vk = src.ekind
+                old = self._probe_kinds.get(obj.ref)
+                self._probe_kinds[obj.ref] = vk if old in (None, vk) else "unk"
         return super().alist_method(st, obj, name, args, kwargs, node)
 
     def probe_kinds(self, s, st, it):
